@@ -25,19 +25,19 @@ namespace Ts.Snapshot
 open Ts.Storage (Bytes)
 open Ts.Slab Ts.BatchRead
 
-/-- every unit of the rank reads back the bytes its stager exported, with batching on or off -/
-theorem readAll (cfg : Cfg) (hs : 1 ≤ cfg.slab) (wb : List (WReq UnitId × Bytes))
+/-- every unit's recorded location holds the bytes its stager exported, with batching on or off -/
+theorem storedAll (cfg : Cfg) (hs : 1 ≤ cfg.slab) (wb : List (WReq UnitId × Bytes))
     (hpaths : (wb.map (·.1.path)).Nodup)
     (hsz : ∀ x ∈ wb, batchable x.1 = true → x.2.length = x.1.size) :
     ∀ e ∈ wb.zip (placements cfg wb),
-      readUnit (written wb (placements cfg wb)) (unitLoc e.1.1 e.2) = .ok e.1.2 := by
+      UnitStored (written wb (placements cfg wb)) (unitLoc e.1.1 e.2) e.1.2 := by
   intro e he
   unfold placements at he ⊢
   by_cases hb : cfg.batching = true
   · simp only [hb, if_true] at he ⊢
-    exact readUnit_batched wb cfg.slab hs hpaths hsz e he
+    exact stored_batched wb cfg.slab hs hpaths hsz e he
   · simp only [hb] at he ⊢
-    exact readUnit_plain wb hpaths e he
+    exact stored_plain wb hpaths e he
 
 theorem placements_length (cfg : Cfg) (wb : List (WReq UnitId × Bytes)) : (placements cfg wb).length = wb.length := by
   unfold placements
@@ -57,10 +57,11 @@ theorem C01_dataplane_roundtrip (cfg : Cfg) (hc : 1 ≤ cfg.chunk) (hs : 1 ≤ c
       entriesWalk pw (placements cfg (allWrites pw)) = .ok ens ∧
       mapE (restoreLeaf (written (allWrites pw) (placements cfg (allWrites pw))) order) ens = .ok leaves := by
   obtain ⟨pw, hpw, hmap, _, hnd, hsz, hall⟩ := perLeaf_spec cfg hc leaves 0 hok
-  have hread := readAll cfg hs (allWrites pw) hnd hsz
-  obtain ⟨ens, hens, hres⟩ := walk_ok cfg hc _ order horder (allWrites pw) (placements cfg (allWrites pw)) hread
+  have hst := storedAll cfg hs (allWrites pw) hnd hsz
+  obtain ⟨ens, hens, hres⟩ := walk_ok cfg hc _ (fun _ _ u => readUnit _ u)
+    (fun u bs _ _ h _ => readUnit_of_stored _ u bs h) order horder (allWrites pw) (placements cfg (allWrites pw)) hst
     pw [] [] (placements cfg (allWrites pw)) (by simp) (by simp) rfl (placements_length cfg _) hall
-  exact ⟨pw, ens, hpw, hens, by rw [hres, hmap]⟩
+  exact ⟨pw, ens, hpw, hens, by rw [← hmap]; exact hres⟩
 
 /-- **Knob independence.** Two takes of the same leaves under any two knob settings (and any two consumer
 orders) restore to the same values. -/
